@@ -11,7 +11,7 @@ R6 every loop over the input makes progress (consumes, moves its look-ahead offs
 """
 from . import util, guards, cg, taint as T
 from .cfg import cfg
-from .common import norm
+from .common import norm, family
 from .sym import sym, short, mentions, subexprs
 from .c10 import strip_bb
 from .c03 import upvar_field, symbol_tables
@@ -72,7 +72,7 @@ RESIDUAL = {
     ("flussab_aiger::binary::ParseAndGates::next_and_gate", "Add", "code"): "same bound as next_latch",
     ("flussab::text::signed_ascii_digits_multi", "OverflowNeg", ""): "the kernel value has at most 7 digits here (< 10^7), far from i32::MIN",
     ("flussab::text::swar_ascii_digits_u64_le", "Sub", "64"): "shift = trailing_zeros() & !7 <= 64",
-    ("flussab_cnf::token::clause_lits::{closure#1}", "OverflowNeg", ""): "limit is L::MAX_DIMACS or a header var_count <= MAX_DIMACS: positive, never isize::MIN",
+    ("flussab_cnf::token::clause_lits", "OverflowNeg", ""): "limit is L::MAX_DIMACS or a header var_count <= MAX_DIMACS: positive, never isize::MIN",
     ("flussab_cnf::sat_solver_log::parse_log", "OverflowNeg", ""): "the constant L::MAX_DIMACS is positive",
 }
 
@@ -116,6 +116,10 @@ def discharge(facts, tn, f, bi, t, guard_rows):
         return "measure", "operands measure consumed input or are constants"
     if not any(tainted) and all(o[0] in ("c", "cast") for o in ops) and t["msg"] != "Overflow":
         return "measure", "constant operands"
+    if t["msg"] == "Overflow" and len(ops) == 2 and all(o[0] == "c" and isinstance(o[1], int) for o in ops) and op in ("Add", "Sub", "Mul"):
+        v = {"Add": ops[0][1] + ops[1][1], "Sub": ops[0][1] - ops[1][1], "Mul": ops[0][1] * ops[1][1]}[op]
+        if 0 <= v < (1 << 31):
+            return "const-arith", "both operands are constants and the exact result %d fits" % v
     a = ops[0]
     b = ops[1] if len(ops) > 1 else None
     if t["msg"] in ("DivisionByZero", "RemainderByZero"):
@@ -172,7 +176,7 @@ def discharge(facts, tn, f, bi, t, guard_rows):
     # residual table
     shown = sy.show(a)
     for (rf, rop, rpre), why in RESIDUAL.items():
-        if rf == nid and rop == op and (rpre == "" or rpre in shown):
+        if rf in (nid, family(nid)) and rop == op and (rpre == "" or rpre in shown):
             return "residual", why
     return None, "no guard, bound or table entry"
 
